@@ -243,6 +243,8 @@ func (m *runner) one(name string, seed, alpha []byte, exhaustive, corr bool) {
 		m.bad("keygen-pk-differs-from-reference", fmt.Sprintf("KeyGen public key %x, reference %x", pk, refPk), rp)
 	}
 	addCase(fmt.Sprintf("(CKeyGen %s (Some %s))", vh.Bytes(seed), vh.Bytes(pk)), rp)
+	hold("public-key", rp, pk)
+	seedIn, alphaIn := append([]byte(nil), seed...), append([]byte(nil), alpha...)
 
 	// --- Prove
 	var proof, out []byte
@@ -267,6 +269,17 @@ func (m *runner) one(name string, seed, alpha []byte, exhaustive, corr bool) {
 		return
 	}
 	addCase(fmt.Sprintf("(CProve %s %s (Some (%s, %s)))", vh.Bytes(seed), vh.Bytes(alpha), vh.Bytes(proof), vh.Bytes(out)), rp)
+	hold("proof", rp, proof)
+	hold("output", rp, out)
+	// a second Prove with the same key and another message while the first result is held
+	if p2, o2, err := vrf.Prove(seed, append([]byte("other:"), alpha...)); err == nil {
+		hold("proof", rp, p2)
+		hold("output", rp, o2)
+	}
+	m.recheckHeld("a second Prove")
+	if !bytes.Equal(seed, seedIn) || !bytes.Equal(alpha, alphaIn) {
+		m.bad("prove-modifies-input", "Prove changed its secret key or message argument", rp)
+	}
 
 	// --- the genuine proof verifies and yields the same output
 	verifyCase := func(vpk, vpi, valpha []byte, note string, record bool) (string, []byte) {
@@ -299,6 +312,9 @@ func (m *runner) one(name string, seed, alpha []byte, exhaustive, corr bool) {
 		m.bad("genuine-rejected", "the proof returned by Prove does not verify: "+cl, rp)
 	} else if !bytes.Equal(o, out) {
 		m.bad("verify-output-differs-from-prove", fmt.Sprintf("VerifyAndHash output %x, Prove output %x", o, out), rp)
+	}
+	if cl == "ok" {
+		hold("verify-output", rp, o)
 	}
 	if h, err := vrf.ProofToHash(proof); err != nil || !bytes.Equal(h, out) {
 		m.bad("prooftohash-differs-from-prove", fmt.Sprintf("ProofToHash %x (%v), Prove output %x", h, err, out), rp)
@@ -338,9 +354,18 @@ func (m *runner) one(name string, seed, alpha []byte, exhaustive, corr bool) {
 		}
 	}
 	verifyCase(flipBit(pk, recPk), proof, alpha, fmt.Sprintf("key bit %d flipped", recPk), corr)
-	for i := pick(step); i < len(alpha)*8; i += step {
+	// every bit for the exhaustive cases; otherwise one bit in EVERY byte position
+	// (rotating bit index), so no byte range of a long message escapes
+	for i := 0; i < len(alpha)*8; i++ {
+		if !exhaustive && i%8 != (i/8+int(seed[0]))%8 {
+			continue
+		}
+		if exhaustive && len(alpha) > 256 && i%8 != (i/8+int(seed[0]))%8 && i%step != 0 {
+			continue
+		}
 		if cl, _ := verifyCase(pk, proof, flipBit(alpha, i), fmt.Sprintf("message bit %d flipped", i), false); cl == "ok" {
-			m.bad("accept-msg-bitflip", fmt.Sprintf("accepted with message bit %d flipped", i), rp)
+			m.bad(fmt.Sprintf("accept-msg-bitflip-byte-%s", byteRange(i/8)), fmt.Sprintf("accepted with bit %d of message byte %d flipped (message of %d bytes)", i%8, i/8, len(alpha)), rp)
+			break
 		}
 	}
 	if len(alpha) > 0 {
@@ -392,7 +417,11 @@ func (m *runner) one(name string, seed, alpha []byte, exhaustive, corr bool) {
 		}
 	}
 
-	if corr {
+	m.recheckHeld("the verifications of " + name)
+	if !bytes.Equal(seed, seedIn) || !bytes.Equal(alpha, alphaIn) {
+		m.bad("verify-modifies-input", "a later call changed the seed or message slices passed in", rp)
+	}
+	if corr && len(alpha) <= 256 {
 		cf := c.NewCaseFile(name, header+rc.coq())
 		cf.Func = "mismatches T"
 		cf.SetShardSize(100000)
@@ -401,6 +430,18 @@ func (m *runner) one(name string, seed, alpha []byte, exhaustive, corr bool) {
 		}
 		cf.Flush()
 	}
+}
+
+func byteRange(i int) string {
+	switch {
+	case i < 60:
+		return "0-59"
+	case i < 94:
+		return "60-93"
+	case i < 128:
+		return "94-127"
+	}
+	return "128+"
 }
 
 func firstDiff(a, b []byte) int {
@@ -421,7 +462,14 @@ func bucket(n int) int {
 	return 1 << 20
 }
 
+// message lengths around the SHA-512 block boundaries of the hash-to-curve
+// input (34-byte prefix: 94 bytes fill the first block) and of the messages
+var alphaLens = []int{32, 0, 95, 1, 96, 94, 129, 60, 61, 93, 31, 33, 127, 128, 200, 1000, 222, 350}
+
 func genAlpha(r *vh.Rng, i int) []byte {
+	if i < len(alphaLens) {
+		return r.Bytes(alphaLens[i])
+	}
 	switch i % 6 {
 	case 0:
 		return nil
@@ -433,8 +481,33 @@ func genAlpha(r *vh.Rng, i int) []byte {
 		return r.Bytes(40)
 	case 4:
 		return r.Bytes(1 + r.Intn(64))
+	case 5:
+		return r.Bytes(95 + r.Intn(300))
 	}
 	return bytes.Repeat([]byte{0xff}, 1+r.Intn(33))
+}
+
+// values returned by the API, kept as returned (not copied) with a snapshot
+type heldVal struct {
+	what  string
+	rp    replayC38
+	slice []byte
+	snap  []byte
+}
+
+var held []heldVal
+
+func hold(what string, rp replayC38, b []byte) {
+	held = append(held, heldVal{what, rp, b, append([]byte(nil), b...)})
+}
+
+func (m *runner) recheckHeld(after string) {
+	for i, hv := range held {
+		if !bytes.Equal(hv.slice, hv.snap) {
+			m.bad("held-"+hv.what+"-changed-by-later-call", fmt.Sprintf("the %s returned earlier was changed by a later call (seen after %s)", hv.what, after), hv.rp)
+			held[i].snap = append([]byte(nil), hv.slice...)
+		}
+	}
 }
 
 func run(c *vh.Ctx) error {
@@ -466,8 +539,8 @@ func run(c *vh.Ctx) error {
 		return nil
 	}
 	fixedSeeds := [][]byte{bytes.Repeat([]byte{0}, 32), bytes.Repeat([]byte{0xff}, 32)}
-	n := c.Pick(40, 300)
-	nCorr := c.Pick(12, 40)
+	n := c.Pick(44, 300)
+	nCorr := c.Pick(14, 40)
 	nEx := c.Pick(10, 60)
 	for i := 0; i < n; i++ {
 		var seed []byte
@@ -482,6 +555,7 @@ func run(c *vh.Ctx) error {
 			c.Res.Sample(map[string]any{"seed": vh.Hex(seed), "alpha": vh.Hex(alpha)})
 		}
 	}
+	m.recheckHeld("the whole run")
 	// malformed secret keys
 	for _, l := range []int{0, 31, 33, 64} {
 		if _, _, err := vrf.Prove(make([]byte, l), []byte("x")); err == nil {
